@@ -141,7 +141,17 @@ class ScriptedSocket(object):
             return self._recv_into
         if name == 'sendall' and self.__dict__.get('full'):
             return self._sendall
+        if name == 'sendmsg' and self.__dict__.get('full'):
+            return self._sendmsg
         raise AttributeError(name)
+
+    def _sendmsg(self, buffers, ancdata=(), flags=0, address=None):
+        # scatter/gather output as a POSIX socket offers it: at most IOV_MAX (1024) buffers per call
+        buffers = [bytes(b) for b in buffers]
+        if len(buffers) > 1024:
+            import errno as _e
+            raise OSError(_e.EMSGSIZE, 'Message too long')
+        return self.send(b''.join(buffers))
 
     def _recv_into(self, buf, nbytes=0, flags=0):
         data = self.recv(nbytes or len(buf))
@@ -658,6 +668,12 @@ def gen(r):
             big = [['buffer', n // 2], ['buffer', n - n // 2], ['flush']]
         return {'kind': 'send', 'big': big + [['flush']], 'calls': [], 'send_script': ss + [2 ** 20] * 3, 'timeout': 5.0,
                 'full': r.random() < 0.4}
+    if 0.860 < x < 0.862:
+        # more than a thousand small pieces buffered before anything is flushed (a response assembled header by header)
+        n = r.choice([1023, 1024, 1025, 1500, 3000])
+        calls = [['buffer', rbytes(r, r.choice([1, 2, 5]), b'xyz01')] for _ in range(n)] + [['flush']]
+        return {'kind': 'send', 'calls': calls, 'send_script': [r.choice([7, 100, 4096, 'timeout']) for _ in range(r.randint(0, 6))],
+                'timeout': 5.0, 'full': r.random() < 0.7}
     if x < 0.87:
         calls = []
         for _ in range(r.randint(1, 8)):
